@@ -6,6 +6,7 @@ int vll_exc; void* vll_exc_obj; int vll_exc_type;
 
 #ifdef __CPROVER__
 /* ------------------------------------------------------------------ CBMC mode */
+unsigned char __libc_single_threaded = 1;   /* as natively before any thread is created: shared_ptr counts are plain integers */
 uint64_t nondet_u64(void);
 uint64_t vnd_last;   /* every draw is assigned here: the driver reads the draws, in order, from the trace */
 uint64_t vnd_u64(void){ uint64_t v = nondet_u64(); vnd_last = v; return v; }
